@@ -1,5 +1,6 @@
 import PytezosModel.Michelson.Interp.Syntax
 import PytezosModel.Michelson.Interp.Typing
+import PytezosModel.Michelson.Collections
 /-! `Spec.eval` — big-step reference semantics of the modelled Michelson core over a plain list stack,
 written from the Michelson reference (not from the pytezos code).  `err` = stuck (ill-typed) or out of fuel.
 Values carry their types; the rules check the type side conditions of the typing rules dynamically (EXEC,
@@ -126,6 +127,50 @@ def xorV : Val → Val → Res Val
   | .num .nat x, .num .nat y => if 0 ≤ x ∧ 0 ≤ y then .ok (.num .nat (Int.ofNat (x.toNat ^^^ y.toNat))) else .err
   | _, _ => .err
 
+/-! Sets and maps: strictly sorted lists (of elements, of `Pair key value` bindings) maintained by ordered search,
+insertion and deletion (`Spec.Coll`, the reference dictionary of C14) under the order `Typing.keyLt` of the simple
+comparable types.  The rules apply to well-formed collections (`goodSet` / `goodMap`) and keys of the right type. -/
+open Typing in
+def kvs (items : List Val) : List (Val × Val) :=
+  items.map fun e => match e with
+    | .pair k v => (k, v)
+    | v => (v, v)
+
+def unkvs (m : List (Val × Val)) : List Val := m.map fun e => .pair e.1 e.2
+
+open Typing _root_.Spec.Coll in
+/-- MEM -/
+def memV : Val → Val → Res Val
+  | x, .set t xs => if goodSet t xs && isKey t x then .ok (.bool (memKey keyLt x xs)) else .err
+  | x, .map k _ items => if goodMap k items && isKey k x then .ok (.bool (findKV keyLt x (kvs items)).isSome) else .err
+  | _, _ => .err
+
+open Typing _root_.Spec.Coll in
+/-- GET on a map -/
+def getV : Val → Val → Res Val
+  | x, .map k v items =>
+    if goodMap k items && isKey k x then
+      .ok (match findKV keyLt x (kvs items) with
+        | some y => .some y
+        | none => .none v)
+    else .err
+  | _, _ => .err
+
+open Typing _root_.Spec.Coll in
+/-- UPDATE: `True` / `False` adds / removes an element of a set; `Some v` / `None` binds / unbinds a key of a map -/
+def updateV : Val → Val → Val → Res Val
+  | x, .bool b, .set t xs =>
+    if goodSet t xs && isKey t x then .ok (.set t (if b then insertKey keyLt x xs else eraseKey keyLt x xs)) else .err
+  | x, .none v', .map k v items =>
+    if goodMap k items && isKey k x && v' == v then .ok (.map k v (unkvs (eraseKV keyLt x (kvs items)))) else .err
+  | x, .some y, .map k v items =>
+    if goodMap k items && isKey k x && typeOf y == v then .ok (.map k v (unkvs (insertKV keyLt x y (kvs items)))) else .err
+  | _, _, _ => .err
+
+/-- GET_AND_UPDATE: the previous binding and the updated map -/
+def getAndUpdateV (x o m : Val) : Res (Val × Val) :=
+  (getV x m).bind fun old => (updateV x o m).bind fun m' => .ok (old, m')
+
 /-- `PAIR n` (n ≥ 2): `PAIR 2 = PAIR`, `PAIR (n+1) = DIP { PAIR n } ; PAIR` — folds the top `n` elements into a right comb -/
 def pairN : Nat → List Val → Option (Val × List Val)
   | 2, a :: b :: st => some (.pair a b, st)
@@ -201,6 +246,12 @@ def step (env : Env) : Instr → List Val → Res (List Val)
   | .NIL t, st => .ok (.list t [] :: st)
   | .CONS, x :: .list t xs :: st => if typeOf x = t then .ok (.list t (x :: xs) :: st) else .err
   | .EMPTY_MAP k v, st => .ok (.map k v [] :: st)
+  | .EMPTY_SET t, st => if Typing.simpleComparable t then .ok (.set t [] :: st) else .err   -- elements must be comparable
+  | .SIZE, .set _ xs :: st => .ok (.num .nat xs.length :: st)
+  | .MEM, a :: b :: st => (memV a b).bind fun r => .ok (r :: st)
+  | .GET, a :: b :: st => (getV a b).bind fun r => .ok (r :: st)
+  | .UPDATE, a :: b :: c :: st => (updateV a b c).bind fun r => .ok (r :: st)
+  | .GET_AND_UPDATE, a :: b :: c :: st => (getAndUpdateV a b c).bind fun r => .ok (r.1 :: r.2 :: st)
   | .SIZE, .str x :: st => .ok (.num .nat x.length :: st)
   | .SIZE, .bytes x :: st => .ok (.num .nat x.length :: st)
   | .SIZE, .list _ xs :: st => .ok (.num .nat xs.length :: st)
@@ -316,6 +367,7 @@ mutual
       | .LOOP_LEFT _, .right _ v :: st => .ok (v :: st)
       | .ITER body, .list _ xs :: st => evalIter guard env fuel body xs st
       | .ITER body, .map _ _ xs :: st => evalIter guard env fuel body xs st
+      | .ITER body, .set _ xs :: st => evalIter guard env fuel body xs st
       | .MAP body, .list t xs :: st =>
         (evalMap guard env fuel body false xs st).bind fun (ys, st') =>
           (listOf guard body t st ys).bind fun r => .ok (r :: st')
